@@ -35,6 +35,15 @@ def cprev (n i : Nat) : Nat := if i ≤ 0 then n - 1 else i - 1
 (skrifa autohint/metrics/blues.rs): `(ix + start) % len`.  (translate/c02_blues.py checks the two bodies.) -/
 def cycleIx (len start ix : Nat) : Nat := (ix + start) % len
 
+/-- `Contour::next` in ABSOLUTE point indices (`first = first_ix`, `last = last_ix`), as the Rust reads:
+`if index >= self.last_ix { self.first_ix } else { index + 1 }` -/
+def contourNext (first last i : Nat) : Nat := if i ≥ last then first else i + 1
+
+/-- `Contour::prev` in absolute indices with the `usize` subtraction CHECKED (`none` = it would underflow):
+`if index <= self.first_ix { self.last_ix } else { index - 1 }` -/
+def contourPrev (first last i : Nat) : Option Nat :=
+  if i ≤ first then some last else if i < 1 then none else some (i - 1)
+
 /-- How one execution of a loop body ended: `break`, `continue` (or falling off the end), or — marker — a nested
 loop of the body did not exit within its fuel. -/
 inductive Out where
